@@ -211,7 +211,7 @@ def gen_dense(rnd, hid, mods, flags, depth):
                ("cupd", 6 if comps else 0), ("cdel", 2 if comps else 0), ("edel", 1 if mine else 0), ("pose", 2 if mine else 0),
                ("custom", 1), ("action", 2 if ents and "vikja" in mods else 0), ("asset", 1 if mine and "odal" in mods else 0),
                ("list", 1 if types else 0), ("disc", 1 if len(ms) > 1 else 0), ("switch", 0.5 if len(ms) > 1 else 0), ("tick", 2),
-               ("pose_del_add", 1 if mine else 0)]
+               ("pose_del_add", 1 if mine else 0), ("visitor", 1 if [q for q in conns if q not in joined] else 0)]
         op = rnd.choices([o for o, _ in ops], [w for _, w in ops])[0]
         if op == "join":
             d = rnd.choice(free)
@@ -271,6 +271,28 @@ def gen_dense(rnd, hid, mods, flags, depth):
                 req(c, k="Join", sid=0)
                 leave(c)
                 joined[c] = 2
+        elif op == "visitor":
+            # a connection whose FIRST session is one of its own (where it gets entity, action, asset and component-type
+            # ids from fresh sources) and that then moves into session 1: everything it is issued there must come
+            # from session 1's sources
+            d = rnd.choice([q for q in conns if q not in joined])
+            steps.append({"step": "Open", "conn": d})
+            req(d, k="Join", sid=0)
+            for _ in range(rnd.randint(1, 2)):
+                req(d, k="EntityAdd", persist=False, flag=0, px=1)
+            if "odal" in mods:
+                req(d, k="AssetAdd", eid=1, asset="m")
+            req(d, k="TypeAdd", name="z")
+            req(d, k="Join", sid=1)
+            joined[d] = 1
+            req(d, k="EntityAdd", persist=False, flag=0, px=2)
+            ecur[0] += 1
+            ents[ecur[0]] = (d, False)
+            known.setdefault(d, set()).add(ecur[0])
+            if "odal" in mods:
+                req(d, k="AssetAdd", eid=ecur[0], asset="n")
+            if "vikja" in mods:
+                req(d, k="Action", eid=ecur[0], name="x", ats=2, data=1, has=True)
         elif op == "pose_del_add":
             # within one frame: an update of an entity is parked, the entity is deleted, its owner (or somebody else) adds
             # a new one; the parked update must die with the entity
